@@ -21,6 +21,9 @@ pub enum C12Case {
     Cell { op: usize, req: usize, inst: usize },
     /// AND/OR nesting: per entry, per alternative: 0 satisfied, 1 version mismatch, 2 absent
     Nest { entries: Vec<Vec<u8>> },
+    /// one entry whose alternatives all name the SAME package: (operator index, required version index) each;
+    /// installed version index (POOL.len() = absent); then a second entry on another, installed package
+    SamePkg { alts: Vec<(usize, usize)>, inst: usize },
 }
 
 pub struct C12;
@@ -98,6 +101,33 @@ fn check_cell(op: usize, req: usize, inst: usize) -> Vec<Viol> {
     out
 }
 
+const SAME_REQ: [usize; 3] = [0, 2, 4];
+fn check_same(alts: &[(usize, usize)], inst: usize) -> Vec<Viol> {
+    let mut out = vec![];
+    let installed: Option<Version> = POOL.get(inst).map(|v| v.parse().unwrap());
+    let inst_idx = if inst < POOL.len() { Some(inst) } else { None };
+    let mut map: HashMap<String, Version> = HashMap::new();
+    if let Some(v) = &installed {
+        map.insert("pkg".into(), v.clone());
+    }
+    map.insert("other".into(), "1".parse().unwrap());
+    let text = format!(
+        "{}, other",
+        alts.iter().map(|(op, req)| if *op == 0 { "pkg".to_string() } else { format!("pkg ({} {})", OPS12[*op], POOL[*req]) }).collect::<Vec<_>>().join(" | ")
+    );
+    let want = alts.iter().any(|(op, req)| reference_cell(*op, *req, inst_idx));
+    let closure = |name: &str| -> Option<Version> { map.get(name).cloned() };
+    let got_ll = ll::Relations::from_str(&text).unwrap().satisfied_by(closure);
+    let got_ly = ly::Relations::from_str(&text).unwrap().satisfied_by(closure);
+    if got_ll != want {
+        out.push(viol("lossless-same-package-alternatives", format!("field {:?} with pkg at {:?}: lossless says {}, expected {}", text, POOL.get(inst), got_ll, want)));
+    }
+    if got_ly != want {
+        out.push(viol("lossy-same-package-alternatives", format!("field {:?} with pkg at {:?}: lossy says {}, expected {}", text, POOL.get(inst), got_ly, want)));
+    }
+    out
+}
+
 fn check_nest(entries: &[Vec<u8>]) -> Vec<Viol> {
     let mut out = vec![];
     let mut map: HashMap<String, Version> = HashMap::new();
@@ -142,7 +172,7 @@ impl Prop for C12 {
         "exploration"
     }
     fn rule(&self, _t: Tier) -> String {
-        "(1) the complete single-relation table: {unversioned, <<, <=, =, >=, >>} x required version x installed version (or absent) over a version pool whose Debian order is hard-coded in the harness (epochs, revisions, '~', '+'), evaluated by the lossless Relations/Entry evaluators and the lossy Relations/Relation evaluators through every lookup form that type-checks (closure, HashMap, (name, version) pair); (2) every AND/OR shape: all fields of <= 3 entries x 1..3 alternatives (thorough 4 x 1..3) where each alternative is satisfied / version-mismatched / absent, plus the empty field; all cases distinct; non-trivial = every case except the empty field".into()
+        "(1) the complete single-relation table: {unversioned, <<, <=, =, >=, >>} x required version x installed version (or absent) over a version pool whose Debian order is hard-coded in the harness (epochs, revisions, '~', '+'), evaluated by the lossless Relations/Entry evaluators and the lossy Relations/Relation evaluators through every lookup form that type-checks (closure, HashMap, (name, version) pair); (2) every AND/OR shape: all fields of <= 3 entries x 1..3 alternatives (thorough 4 x 1..3) where each alternative is satisfied / version-mismatched / absent, plus the empty field; (3) every entry of 1-3 alternatives that all name the SAME package (6 operators x 3 required versions each) x 5 installed states, followed by a second satisfied entry; all cases distinct; non-trivial = every case except the empty field".into()
     }
     fn bounds(&self, t: Tier) -> Value {
         json!({"version_pool": &POOL[..pool(t)], "cells": 6 * pool(t) * (pool(t) + 1), "max_entries": t.pick(3, 4), "max_alternatives": 3})
@@ -151,7 +181,7 @@ impl Prop for C12 {
         vec!["the hard-coded order of the version pool is the trusted reference (written from deb-version(7))".into()]
     }
     fn n_shards(&self, t: Tier) -> usize {
-        1 + 1 + t.pick(3, 4)
+        1 + 1 + t.pick(3, 4) + 1
     }
     fn explore(&self, t: Tier, shard: usize, f: &mut dyn FnMut(&C12Case) -> Verdict) {
         let n = pool(t);
@@ -165,6 +195,29 @@ impl Prop for C12 {
             }),
             1 => {
                 f(&C12Case::Nest { entries: vec![] });
+            }
+            k if k == 2 + t.pick(3, 4) => {
+                // alternatives on the same package: 1..3 alternatives x (6 operators x 3 required versions) x installed
+                let per = 6 * SAME_REQ.len();
+                for n_alt in 1..=3usize {
+                    let mut m = vec![per; n_alt];
+                    m.push(SAME_REQ.len() + 2);
+                    product(&m, &mut |v| {
+                        let alts: Vec<(usize, usize)> = v[..n_alt].iter().map(|x| (x / SAME_REQ.len(), SAME_REQ[x % SAME_REQ.len()])).collect();
+                        if alts.iter().any(|(op, req)| *op == 0 && *req != SAME_REQ[0]) {
+                            return; // required version irrelevant for an unversioned alternative
+                        }
+                        let iv = v[n_alt];
+                        let inst = match iv {
+                            0 => 1,  // between the required versions
+                            1 => 2,
+                            2 => 3,
+                            3 => 5,
+                            _ => POOL.len(),
+                        };
+                        f(&C12Case::SamePkg { alts, inst });
+                    });
+                }
             }
             k => {
                 let entries = k - 1;
@@ -192,6 +245,7 @@ impl Prop for C12 {
         let r = guard(100_000, || match c {
             C12Case::Cell { op, req, inst } => check_cell(*op, *req, *inst),
             C12Case::Nest { entries } => check_nest(entries),
+            C12Case::SamePkg { alts, inst } => check_same(alts, *inst),
         });
         if !matches!(c, C12Case::Nest { entries } if entries.is_empty()) {
             st.nontrivial += 1;
@@ -202,6 +256,7 @@ impl Prop for C12 {
                     st.outcome(match c {
                         C12Case::Cell { .. } => "cell-ok",
                         C12Case::Nest { .. } => "nest-ok",
+                        C12Case::SamePkg { .. } => "same-package-ok",
                     });
                 }
                 vs
@@ -212,6 +267,17 @@ impl Prop for C12 {
     fn shrinks(&self, c: &C12Case) -> Vec<C12Case> {
         match c {
             C12Case::Cell { .. } => vec![],
+            C12Case::SamePkg { alts, inst } => {
+                let mut out = vec![];
+                for i in 0..alts.len() {
+                    if alts.len() > 1 {
+                        let mut a = alts.clone();
+                        a.remove(i);
+                        out.push(C12Case::SamePkg { alts: a, inst: *inst });
+                    }
+                }
+                out
+            }
             C12Case::Nest { entries } => {
                 let mut out = vec![];
                 for e in 0..entries.len() {
